@@ -40,7 +40,10 @@ class Values:
 
     def _v(self, name):
         if self.concrete is not None:
-            return lift(float(self.concrete.get(name, 0.0)))
+            try:
+                return lift(float(self.concrete[name]))  # (a defaultdict supplies its own default)
+            except KeyError:
+                return lift(0.0)
         return z3.Real(name)
 
     def beta(self, name): return self._v(f'b_{name}')
